@@ -69,9 +69,10 @@ def _positions(e):
     return []
 
 
-def _collect(fs, vcache):
-    """ground terms per position key and per sort (the fall-back pool)"""
-    bykey, bysort, seen, stack = {}, {}, set(), list(fs)
+def _collect(fs, vcache, state=None):
+    """ground terms per position key and per sort (the fall-back pool); `state` = (bykey, bysort, seen) of an earlier call makes it incremental"""
+    bykey, bysort, seen = state if state is not None else ({}, {}, set())
+    stack = list(fs)
     while stack:
         e = stack.pop()
         i = e.get_id()
@@ -199,16 +200,9 @@ class _Grounder:
 
 def _has_forall(e, cache):
     i = e.get_id()
-    if i in cache:
-        return cache[i]
-    if z3.is_quantifier(e):
-        r = e.is_forall() or _has_forall(e.body(), cache)
-    elif z3.is_app(e):
-        r = any(_has_forall(c, cache) for c in e.children())
-    else:
-        r = False
-    cache[i] = r
-    return r
+    if i not in cache:
+        cache[i] = '(forall ' in e.sexpr()          # the printer runs in C: much cheaper than walking a large instance through the python API
+    return cache[i]
 
 
 def _consts(fs):
@@ -268,8 +262,9 @@ def ground(hyps, goal, rounds=2, cap=2000):
     quantified = [f for f in fs if _has_forall(f, hf)]
     ground_part = [f for f in fs if not _has_forall(f, hf)]
     pending = list(quantified)          # formulas that still contain universals (instances may contain nested ones)
+    cstate = ({}, {}, set())
     for rnd in range(rounds):
-        bykey, bysort = _collect(ground_part + pending, gr.vcache)
+        bykey, bysort = _collect(ground_part + pending, gr.vcache, cstate)
         gr.round = rnd
         gr.see(bykey, bysort)
         cache = {}
